@@ -1,4 +1,44 @@
-//! Driver of E5 (loom): builds and runs the separate loomcheck workspace (placeholder until it is built)
-use crate::report::Reporter;
+//! Driver of E5 (loom): builds the separate loomcheck workspace against /repo's working tree and runs it.
+use crate::report::{verif_dir, Reporter};
 use serde_json::{json, Value};
-pub fn run(_rep: &Reporter) -> (Value, bool) { (json!({"status": "not built yet"}), true) }
+use std::process::Command;
+
+pub fn run(rep: &Reporter) -> (Value, bool) {
+    let dir = format!("{}/loomcheck", verif_dir());
+    let build = Command::new("cargo").args(["build", "--release", "--offline"]).current_dir(&dir).env("CARGO_NET_OFFLINE", "true").output();
+    match build {
+        Ok(o) if o.status.success() => (),
+        Ok(o) => { rep.engine_error(format!("loomcheck does not build against /repo: {}", String::from_utf8_lossy(&o.stderr).lines().rev().take(12).collect::<Vec<_>>().join(" | "))); return (json!({"status": "build failed"}), false); }
+        Err(e) => { rep.engine_error(format!("cannot run cargo for loomcheck: {}", e)); return (json!({"status": "build failed"}), false); }
+    }
+    let exe = format!("{}/.build/loom/release/loomcheck", verif_dir());
+    // one process per core, programs striped over them
+    let n = crate::par::nthreads();
+    let children: Vec<_> = (0..n).map(|i| Command::new(&exe).arg(&rep.tier).arg(i.to_string()).arg(n.to_string()).stdout(std::process::Stdio::piped()).stderr(std::process::Stdio::piped()).spawn()).collect();
+    let mut merged: Option<Value> = None;
+    let mut complete = true;
+    for (i, c) in children.into_iter().enumerate() {
+        let out = match c.and_then(|c| c.wait_with_output()) { Ok(o) => o, Err(e) => { rep.engine_error(format!("cannot run {}: {}", exe, e)); return (json!({"status": "run failed"}), false); } };
+        let txt = String::from_utf8_lossy(&out.stdout);
+        let v: Value = match txt.lines().last().and_then(|l| serde_json::from_str(l).ok()) { Some(v) => v, None => { rep.engine_error(format!("loomcheck stripe {} produced no report (status {:?}): {}", i, out.status.code(), String::from_utf8_lossy(&out.stderr).chars().take(400).collect::<String>())); complete = false; continue; } };
+        for x in v["violations"].as_array().cloned().unwrap_or_default() {
+            rep.violation(x["sig"].as_str().unwrap_or("loom").to_string(), x["what"].as_str().unwrap_or("").to_string(), json!({"engine": "loom", "program": x["program"]}));
+        }
+        complete &= v["complete"].as_bool().unwrap_or(false);
+        match &mut merged {
+            None => { let mut m = v.clone(); if let Value::Object(o) = &mut m { o.remove("violations"); } merged = Some(m); }
+            Some(m) => {
+                for k in ["programs", "executions", "distinct_histories"] { m[k] = json!(m[k].as_u64().unwrap_or(0) + v[k].as_u64().unwrap_or(0)); }
+                m["wall_s"] = json!(m["wall_s"].as_f64().unwrap_or(0.0).max(v["wall_s"].as_f64().unwrap_or(0.0)));
+                if let (Some(a), Some(b)) = (m["families"].as_array_mut(), v["families"].as_array()) {
+                    for (fa, fb) in a.iter_mut().zip(b.iter()) { for k in ["programs_done", "executions", "distinct_histories"] { fa[k] = json!(fa[k].as_u64().unwrap_or(0) + fb[k].as_u64().unwrap_or(0)); } }
+                }
+                if m["samples"].as_array().map_or(0, |s| s.len()) < 4 { if let Some(bs) = v["samples"].as_array() { for b in bs.iter().take(1) { m["samples"].as_array_mut().unwrap().push(b.clone()); } } }
+            }
+        }
+    }
+    let mut cov = merged.unwrap_or(json!({"status": "no report"}));
+    cov["complete"] = json!(complete);
+    cov["processes"] = json!(n);
+    (cov, complete)
+}
